@@ -393,8 +393,6 @@ def run(tier, seed, workers):
     docs += [(m, [a]) for a in pl for m in ('manual', 'with')]
     docs += [('manual' if (i + j) % 2 else 'with', [a, b]) for i, a in enumerate(pl) for j, b in enumerate(pl)]
     triples = list(itertools.product(range(len(pl)), repeat=3))
-    if tier == 'quick':
-        triples = [t for t in triples if len(set(t)) == 3][::3] + [(0, 0, 0), (1, 1, 1)]
     docs += [('with', [pl[i], pl[j], pl[k]]) for i, j, k in triples]
     # fault: a write that the serialiser refuses, at every position of sequences of length 1..3 (the accepted records must still form the document)
     rej = dict(default_spec(seed + 9), reject=True)
@@ -409,14 +407,20 @@ def run(tier, seed, workers):
     docs.append(('with', same))
     docs.append(('manual', same[::2]))
     docs.append(('with', [same[3], same[0]]))
-    if tier == 'thorough':
-        # all pairs of the small menus on one record
+    if True:
+        # all combinations of the small menus on one record (quick: a sub-product; thorough: every contract as well)
         extra = []
         base = default_spec(seed)
         for (bid, dbl), d, v, t, dda in itertools.product([('1C', 0), ('3NT', 1), ('7NT', 2), ('5D', 2)], SEATS, VULS, (0, 1, 13), (False, True)):
             extra.append(('pairs', dict(base, contract=[bid, dbl], declarer=d, vul=v, tricks=t, taken=t, dda=dda)))
         for nm, idn in itertools.product(NAMES, NAMES):
             extra.append(('name-id', dict(base, names=[nm, 'B', nm, 'B'], id=idn)))
+        if tier == 'thorough':
+            for bid in RA.BIDS:
+                for dbl, d, v, t in itertools.product((0, 1, 2), SEATS, VULS, (0, 7, 13)):
+                    extra.append(('contract-product', dict(base, contract=[bid, dbl], declarer=d, vul=v, tricks=t, taken=t, dealer=SEATS[(t + dbl) % 4], dda=bool(dbl % 2))))
+            for po, v, dl, dda, a in itertools.product(('passout-none', 'passout-pass'), VULS, SEATS, (False, True), (0, 1)):
+                extra.append(('passedout-product', dict(base, contract=po, vul=v, dealer=dl, dda=dda, auction=a, scores=[0, 0])))
         singles += extra
     n = max(1, workers)
     units = [('single', singles[i::n]) for i in range(n)] + [('docs', docs[i::n]) for i in range(n)]
